@@ -32,6 +32,8 @@ pub struct WorldCfg {
     pub lib_variety: bool,
     pub link_map: bool,
     pub exe_name: &'static str,
+    /// library 0 carries its own DT_DEBUG leading to a second, different linker list
+    pub alt_chain: bool,
 }
 
 impl Default for WorldCfg {
@@ -45,6 +47,7 @@ impl Default for WorldCfg {
             lib_variety: false,
             link_map: true,
             exe_name: "/usr/bin/app",
+            alt_chain: false,
         }
     }
 }
@@ -140,6 +143,7 @@ pub fn lib_spec(r: &mut Rng, variety: bool, idx: usize) -> ElfSpec {
         dt_debug: false,
         dyn_pad: r.below(3) as u32,
         with_pt_phdr: r.coin(),
+        sections_at_end: false,
     };
     if variety {
         match r.below(8) {
@@ -167,7 +171,10 @@ pub fn build_world(r: &mut Rng, cfg: &WorldCfg) -> Built {
     // ---- libraries first (their load info goes into the link map)
     let mut libs: Vec<(String, u64, ElfImage)> = Vec::new();
     for i in 0..cfg.nlibs {
-        let spec = lib_spec(r, cfg.lib_variety, i);
+        let mut spec = lib_spec(r, cfg.lib_variety, i);
+        if cfg.alt_chain && i == 0 {
+            spec.dt_debug = true;
+        }
         let img = elfgen::build(&spec);
         let path = format!("/usr/lib/libsim{}.so.{}.{}", i, r.below(4), r.below(30));
         let base = LIB_BASE + i as u64 * 0x100_0000;
@@ -187,6 +194,7 @@ pub fn build_world(r: &mut Rng, cfg: &WorldCfg) -> Built {
         dt_debug: true,
         dyn_pad: 0,
         with_pt_phdr: true,
+        sections_at_end: false,
     };
     let exe = elfgen::build(&exe_spec);
     if cfg.link_map {
@@ -221,6 +229,29 @@ pub fn build_world(r: &mut Rng, cfg: &WorldCfg) -> Built {
             let prev = if i > 0 { HEAP_BASE + (lm0 + (i - 1) * 40) as u64 } else { 0 };
             heap[o + 24..o + 32].copy_from_slice(&next.to_le_bytes());
             heap[o + 32..o + 40].copy_from_slice(&prev.to_le_bytes());
+        }
+    }
+
+    if cfg.alt_chain && !libs.is_empty() {
+        // second r_debug at HEAP_BASE + 0x1000 with a two-entry list
+        let o = 0x1000usize;
+        let lm = o + 0x40;
+        let names = lm + 80;
+        let n1 = b"/alt/first.so\0";
+        let n2 = b"/alt/second.so\0";
+        heap[names..names + n1.len()].copy_from_slice(n1);
+        heap[names + 32..names + 32 + n2.len()].copy_from_slice(n2);
+        heap[o..o + 4].copy_from_slice(&2i32.to_le_bytes());
+        heap[o + 8..o + 16].copy_from_slice(&(HEAP_BASE + lm as u64).to_le_bytes());
+        heap[o + 16..o + 24].copy_from_slice(&0x1111_2222u64.to_le_bytes());
+        heap[o + 32..o + 40].copy_from_slice(&0x3333_4444u64.to_le_bytes());
+        for i in 0..2usize {
+            let e = lm + i * 40;
+            heap[e..e + 8].copy_from_slice(&(0x7000_0000u64 + i as u64 * 0x10000).to_le_bytes());
+            heap[e + 8..e + 16].copy_from_slice(&(HEAP_BASE + (names + i * 32) as u64).to_le_bytes());
+            heap[e + 16..e + 24].copy_from_slice(&(0x7000_0e00u64 + i as u64 * 0x10000).to_le_bytes());
+            let next = if i == 0 { HEAP_BASE + (lm + 40) as u64 } else { 0 };
+            heap[e + 24..e + 32].copy_from_slice(&next.to_le_bytes());
         }
     }
 
@@ -263,6 +294,10 @@ pub fn build_world(r: &mut Rng, cfg: &WorldCfg) -> Built {
         if let Some(o) = img.dt_strtab_val_off {
             // ld.so relocates d_ptr entries of loaded objects
             let v = base + img.dynstr_off;
+            mem[o as usize..o as usize + 8].copy_from_slice(&v.to_le_bytes());
+        }
+        if let Some(o) = img.dt_debug_val_off {
+            let v = HEAP_BASE + 0x1000;
             mem[o as usize..o as usize + 8].copy_from_slice(&v.to_le_bytes());
         }
         elf_regions(&path, base, &img, 2000 + i as u64, &mem, &mut regions);
@@ -355,6 +390,7 @@ pub fn build_world(r: &mut Rng, cfg: &WorldCfg) -> Built {
             dt_debug: false,
             dyn_pad: 0,
             with_pt_phdr: false,
+            sections_at_end: false,
         };
         let img = elfgen::build(&spec);
         regions.push(RegionSpec {
